@@ -318,10 +318,14 @@ def run_lines(binary_args, lines, shards=None, timeout=900, single_timeout=20):
             if r:
                 part = os.read(fd, 1 << 16)
                 if not part:
+                    if os.environ.get("VERIF_DEBUG_STALL") and buf.count(b"\n") < len(chunk):
+                        open(os.environ["VERIF_DEBUG_STALL"], "a").write("##EOF lines=%d of %d rc=%r\n" % (buf.count(b"\n"), len(chunk), p.poll()))
                     break
                 buf += part
                 last = now
             elif now - last > stall or now - start > tmo:
+                if os.environ.get("VERIF_DEBUG_STALL"):
+                    open(os.environ["VERIF_DEBUG_STALL"], "a").write("##LEAVE stall=%s total=%s lines=%d of %d\n" % (now - last > stall, now - start > tmo, buf.count(b"\n"), len(chunk)))
                 break
         try:
             p.kill()
@@ -353,6 +357,8 @@ def run_lines(binary_args, lines, shards=None, timeout=900, single_timeout=20):
         while pending:
             # the process itself crashed (abort / stack overflow) or ran out of time at the first line without output: run that
             # line alone, then go on with the rest as a new batch (every line is still answered by the same binary)
+            if os.environ.get("VERIF_DEBUG_STALL"):
+                open(os.environ["VERIF_DEBUG_STALL"], "a").write(pending[0][:2000] + "\n")
             res.append(single(pending[0]))
             pending = pending[1:]
             if pending:
